@@ -203,6 +203,7 @@ type progEntry struct {
 // host
 
 type Host struct {
+	KeepOnAbort bool // program cache policy, see keepLoaded
 	W *World
 
 	// long-lived, non-durable
@@ -328,6 +329,9 @@ func (h *Host) Abort() {
 	w := h.W
 	w.SlabIdx, w.UUID, w.AcctID, w.Keys, w.NextAcc = h.saved.SlabIdx, h.saved.UUID, h.saved.AcctID, h.saved.Keys, h.saved.NextAcc
 	for _, l := range h.txLoaded {
+		if h.keepLoaded(l) {
+			continue
+		}
 		delete(h.Programs, l)
 		delete(h.Deps, l)
 	}
@@ -343,6 +347,9 @@ func (h *Host) DiscardScript(failed bool) {
 	w.SlabIdx, w.UUID, w.AcctID, w.Keys, w.NextAcc = h.saved.SlabIdx, h.saved.UUID, h.saved.AcctID, h.saved.Keys, h.saved.NextAcc
 	if failed || h.codeChanged() {
 		for _, l := range h.txLoaded {
+			if failed && h.keepLoaded(l) {
+				continue
+			}
 			delete(h.Programs, l)
 			delete(h.Deps, l)
 		}
@@ -351,6 +358,20 @@ func (h *Host) DiscardScript(failed bool) {
 		h.EvictAll()
 	}
 	h.inExec = false
+}
+
+// keepLoaded: a host may keep a contract program that an execution loaded successfully even if that execution failed later
+// (loading is a read of committed code). Only with KeepOnAbort, only address locations, only complete loads, and never when
+// the failed execution had changed contract code.
+func (h *Host) keepLoaded(l runtime.Location) bool {
+	if !h.KeepOnAbort || h.codeChanged() {
+		return false
+	}
+	if _, ok := l.(common.AddressLocation); !ok {
+		return false
+	}
+	e := h.Programs[l]
+	return e != nil && e.err == nil && e.p != nil
 }
 
 func (h *Host) EvictAll() {
